@@ -19,7 +19,7 @@ from vlib.core import Stage, fail
 ID = "C07"
 MANIFEST = {
     "category": "exploration",
-    "text": "Generated-input search: valid, format-constraint-dense expressions (juxtapositions on either side of atoms and of bracketed compositions, >= 3 fc keys under different operators) x rc assignments (all 3^k for k<=3, else 10 sampled) x all 2^n truth assignments of the fc keys (n<=5). The collected expression must be None or be accepted by the reference recogniser, contain only U/O/X compositions over fc keys of the source, and - evaluated by the real format_constraint_evaluation - equal the direct reading computed on the generating AST (attached constraint binding iff its operand is FULFILLED or a hint; operands contributing nothing are omitted; nothing counts as fulfilled). One slice is enumerated completely: every valid expression with at least one format constraint and up to 3 (thorough: 4) atoms over the keys [1], [2], [501], [901], [902], under all rc and truth assignments. Stage long-collected (enumerated): 65-80 (thorough: 33-200) operands [1][901] plus one [1][902] joined by one operator, [1] fulfilled; the collected expression must be evaluable and equal the Boolean fold under all four truth assignments. A third of the attachments are bracketed compositions of two format constraints on the right (the direct reading evaluates the group).",
+    "text": "Generated-input search: valid, format-constraint-dense expressions (juxtapositions on either side of atoms and of bracketed compositions, >= 3 fc keys under different operators) x rc assignments (all 3^k for k<=3, else 10 sampled) x all 2^n truth assignments of the fc keys (n<=5). The collected expression must be None or be accepted by the reference recogniser, contain only U/O/X compositions over fc keys of the source, and - evaluated by the real format_constraint_evaluation - equal the direct reading computed on the generating AST (attached constraint binding iff its operand is FULFILLED or a hint; operands contributing nothing are omitted; nothing counts as fulfilled). One slice is enumerated completely: every valid expression with at least one format constraint and up to 3 (thorough: 4) atoms over the keys [1], [2], [501], [901], [902], under all rc and truth assignments. Stage long-collected (enumerated): 65-80 (thorough: 33-200) operands [1][901] plus one [1][902] joined by one operator, [1] fulfilled; the collected expression must be evaluable and equal the Boolean fold under all four truth assignments. A third of the attachments are bracketed compositions of two format constraints on the right (the direct reading evaluates the group). Every second truth assignment is served by constraints that carry no message of their own when unfulfilled.",
     "note": "Trusted: ref.fc_direct / ref.state (reference reading), ref.accepts_condition, the generator. The string round trip through the real parser and FormatConstraintTransformer is part of what is tested (C08 checks that evaluator separately). Bounded: <= 12/24 atoms, <= 5 fc keys. Process configuration by shard (vlib/sut.py; recorded in replay files): plain / parse caches preheated beyond their size / warnings attributed to ahbicht raised as errors / logging fully enabled with every record rendered; one event loop per process or a new one per call; five process time zones; the hash seed is the shard number; namesakes of ahbicht's marshmallow schema classes are registered. Every registry of evaluators / providers / resolvers that the harness builds (sut.configure) also holds one of each kind that names no EDIFACT format and no format version; these must never be asked.",
     "technique": "property-based testing against a reference interpretation, exhaustive over truth assignments per expression",
 }
@@ -97,7 +97,10 @@ def check(case):
             if fce is None:
                 value = True
             else:
-                sut.setup_hardcoded(sut.make_cer(fc=truth))
+                # every second truth assignment is served by constraints that give no message of their own when they
+                # are unfulfilled (the shipped dict / result based evaluators hand such constraints on as they are)
+                silent = sum(combo) % 2 == 1
+                sut.setup_hardcoded(sut.make_cer(fc={k: (True if v else [False, None]) for k, v in truth.items()} if silent else truth))
                 evaluated = sut.call(api.format_constraint_evaluation, fce)
                 if not evaluated.ok:
                     fail("not-evaluable", f"collected expression {fce!r} of {text!r} cannot be evaluated: {evaluated!r}")
